@@ -471,7 +471,7 @@ theorem doTask_inv (cfg : Cfg) {st : St α} (t : Task) (h : RInv cfg st)
 
 theorem doCall_inv (cfg : Cfg) {st : St α} (k : Nat) (c : Call α) (h : RInv cfg st) (_hag : st.agenda = []) :
     RInv cfg (doCall cfg st k c) := by
-  have h2 : RInv cfg { st with curCall := k, evs := st.evs ++ [EvR.call k st.clock] } :=
+  have h2 : RInv cfg { st with curCall := k, evs := st.evs ++ [EvR.call k st.clock st.observers.length] } :=
     h.congr rfl rfl (Nat.le_refl _) rfl rfl rfl rfl rfl rfl rfl rfl rfl rfl rfl rfl rfl rfl rfl (fun _ h => h) (fun h => h)
   unfold doCall
   cases c with
